@@ -504,6 +504,32 @@ def names_with_blanks_and_shared_names():
                  [("balance", "P0", "u"), ("c", "P1", "t"), ("a", "P0", "a"), ("P0", "P1", "s")], ["names-with-blanks-and-shared-names", "output-named-like-an-input"])]
 
 
+def literals_of_equal_python_values():
+    """1 and True, 0 and False are equal (and hash alike) in Python: as literals they are different literals of
+    different types, each with its own printed value, in whatever order they are created"""
+    SB = S("Secret", "Bool")
+    return prog([inp("a", "a", SI), inp("q", "q", SB), inp("u", "u", SU),
+                 {"k": "lit", "x": "t", "b": "Bool", "v": 1}, {"k": "lit", "x": "one", "b": "Int", "v": 1}, {"k": "lit", "x": "uone", "b": "UInt", "v": 1},
+                 {"k": "lit", "x": "zero", "b": "Int", "v": 0}, {"k": "lit", "x": "f", "b": "Bool", "v": 0}, {"k": "lit", "x": "uzero", "b": "UInt", "v": 0},
+                 {"k": "bin", "x": "r0", "op": "OXor", "a": "q", "b": "t"}, {"k": "bin", "x": "r1", "op": "OAdd", "a": "a", "b": "one"},
+                 {"k": "bin", "x": "r2", "op": "OAdd", "a": "u", "b": "uone"}, {"k": "bin", "x": "r3", "op": "OMul", "a": "a", "b": "zero"},
+                 {"k": "bin", "x": "r4", "op": "OXor", "a": "q", "b": "f"}, {"k": "bin", "x": "r5", "op": "OSub", "a": "u", "b": "uzero"},
+                 {"k": "bin", "x": "c", "op": "OLt", "a": "zero", "b": "one"}, {"k": "bin", "x": "r6", "op": "OXor", "a": "q", "b": "c"}],
+                [(f"o{i}", "P0", f"r{i}") for i in range(7)], ["literals-of-equal-python-values"])
+
+
+def many_literals_created_twice(n=140):
+    """more distinct literals than a small cache holds, each created a second time later: one table entry per literal"""
+    st = [inp("x", "x", SI)]
+    prev = "x"
+    for rnd in (0, 1):
+        for i in range(n):
+            st.append({"k": "lit", "x": f"l{rnd}_{i}", "b": "Int", "v": 1000 + i})
+            st.append({"k": "bin", "x": f"a{rnd}_{i}", "op": "OAdd", "a": prev, "b": f"l{rnd}_{i}"})
+            prev = f"a{rnd}_{i}"
+    return prog(st, [("o", "P0", prev)], ["many-literals-created-twice"])
+
+
 def objects_same_fields_other_order():
     """two objects (and two n-tuples) with the same field names and types written in different orders, mixed secrecy"""
     PI = S("Public", "Int")
@@ -628,4 +654,4 @@ def all_families():
             dup_inputs("same-party-one-dead"), literal_array_inner(), object_key_order(), literal_divisions(),
             closure_factory(), kwargs_reordered(), unzip_compound(), reduce_public_seed(), rebound_closure_variable(), explicit_types_reordered(), objects_same_fields_other_order(), dup_inputs_one_line('comprehension'), dup_inputs_one_line('helper'), matrix_params_two_element_types(),
             declassifying_function_mapped(), row_function_over_two_matrices(), array_returning_function(), call_chain_depth_four(),
-            operations_shared_between_tables(), same_output_name_to_several_parties(), attribute_like_field_names(), literal_used_as_seed_and_operand()] + names_with_blanks_and_shared_names() + random_draws_made_by_one_line() + operator_pairs() + rejected_functions() + wrong_arity_calls()
+            operations_shared_between_tables(), same_output_name_to_several_parties(), attribute_like_field_names(), literal_used_as_seed_and_operand(), literals_of_equal_python_values()] + names_with_blanks_and_shared_names() + random_draws_made_by_one_line() + operator_pairs() + rejected_functions() + wrong_arity_calls()
